@@ -155,8 +155,8 @@ def tlc_mc(module, env, workers=8, timeout=1800, emit=True, invariants=None):
 VIOL_RE = re.compile(r'VIOL (\d+) (\d+) \{(.*)\}')
 
 
-def tlc_monitor(traces, timeout=1800):
-    """Validates trace files with spec/TraceMonitor.tla (one JVM per file, in parallel)."""
+def tlc_monitor(traces, timeout=1800, module='TraceMonitor'):
+    """Validates trace files with spec/<module>.tla (one JVM per file, in parallel)."""
     procs = []
     for i, tr in enumerate(traces):
         d = tr + '.tm'
@@ -167,8 +167,8 @@ def tlc_monitor(traces, timeout=1800):
         env['TRACE'] = tr
         env['JAVA_TOOL_OPTIONS'] = JAVA_OPTS
         p = subprocess.Popen(['timeout', str(timeout), 'tlc', '-workers', '1', '-metadir', os.path.join(d, 'meta'), '-cleanup',
-                              '-noGenerateSpecTE', '-config', os.path.join(SPEC, 'TraceMonitor.cfg'),
-                              os.path.join(SPEC, 'TraceMonitor.tla')], env=env, stdout=out, stderr=subprocess.STDOUT, cwd=d)
+                              '-noGenerateSpecTE', '-config', os.path.join(SPEC, module + '.cfg'),
+                              os.path.join(SPEC, module + '.tla')], env=env, stdout=out, stderr=subprocess.STDOUT, cwd=d)
         procs.append((p, d, out, tr))
     viols = []
     events = 0
@@ -394,6 +394,56 @@ def real_engine(tier, seed):
     return res
 
 
+# --------------------------------------------------------------------------------- spaces engine
+
+def spaces_engine(tier, seed):
+    """Lattice cases of every space function evaluated on the real spaces, validated by
+    spec/TraceSpaces.tla against the exact models of spec/Spaces.tla; the laws on the models
+    themselves are checked by TLC from MC_Spaces."""
+    build_harness()
+    st = tlc_mc('MC_Spaces', {}, emit=False, timeout=900)
+    if not st['ok']:
+        raise ToolError('MC_Spaces: the lattice models violate their own laws: see ' + st['dir'])
+    work = os.path.join(BUILD, 'work', f'spaces-{tier}')
+    shutil.rmtree(work, ignore_errors=True)
+    os.makedirs(work)
+    trace = os.path.join(work, 'spaces.trace')
+    nshards = 8 if tier == 'thorough' else 2
+    p = run([os.path.join(HARNESS_BIN, 'spaces'), '--out', trace, '--shards', str(nshards), '--seed', str(seed), '--tier', tier],
+            stdout=subprocess.DEVNULL, timeout=3600)
+    if p.returncode != 0:
+        raise ToolError('spaces failed: ' + p.stderr[-1500:])
+    traces = [f'{trace}.{k}' for k in range(nshards)]
+    viols, events = tlc_monitor(traces, timeout=3600, module='TraceSpaces')
+    res = {'engine': 'spaces', 'planner': '-', 'configs': [], 'violations': [], 'samples': [], 'states': events + 1,
+           'transitions': events, 'traces': events, 'events': events, 'witnesses': [], 'label_counts': {}}
+    cache = {}
+    per_op = {}
+    for t in traces:
+        for ln in open(t):
+            e = json.loads(ln)
+            k = f"{e['sp']}/{e['op']}"
+            per_op[k] = per_op.get(k, 0) + 1
+            if len(res['samples']) < 4 and per_op[k] == 1:
+                res['samples'].append(e)
+    for v in viols:
+        if v['trace'] not in cache:
+            cache[v['trace']] = open(v['trace']).read().splitlines()
+        e = json.loads(cache[v['trace']][v['line'] - 1])
+        for lab in v['labels']:
+            res['label_counts'][lab] = res['label_counts'].get(lab, 0) + 1
+            cfg = f"{e['sp']}/{e['op']}"
+            if sum(1 for x in res['violations'] if x['label'] == lab and x['cfg'] == cfg) < 3:
+                res['violations'].append({'label': lab, 'planner': '-', 'engine': 'spaces', 'cfg': cfg, 'run': 0, 'line': v['line'],
+                                          'mode': 'spaces', 'space': e['sp'], 'input': {'spaces_case': e, 'seed': seed, 'tier': tier}})
+    res['configs'].append({'name': 'space-lattices', 'events': events, 'cases_per_space_op': per_op,
+                           'distinct_final_snapshots': len(per_op), 'states': events + 1, 'transitions': events,
+                           'model_laws_checked_by_TLC': 'MC_Spaces: So2Laws(8,12), RvLaws(5x5, 3x3x3), So3Laws(6,12), sampler accept-set symmetry'})
+    for t in traces:
+        os.remove(t)
+    return res
+
+
 # ------------------------------------------------------------------------------------ properties
 
 TREE = ['lat:rrt', 'lat:rrtstar', 'lat:rrtc']
@@ -410,6 +460,12 @@ PROPS = {
     'C06': {'prefixes': ['C06/'], 'engines': ALL4 + REAL, 'level': 'model_checking'},
     'C07': {'prefixes': ['C07/'], 'engines': ALL4 + API4 + REAL, 'level': 'model_checking'},
     'C08': {'prefixes': ['C08/'], 'engines': API4 + ALL4 + REAL, 'level': 'fault_enumeration'},
+    'C09': {'prefixes': ['C09/'], 'engines': ['spaces'], 'level': 'model_checking'},
+    'C10': {'prefixes': ['C10/'], 'engines': ['spaces'], 'level': 'model_checking'},
+    'C11': {'prefixes': ['C11/'], 'engines': ['spaces'], 'level': 'model_checking'},
+    'C12': {'prefixes': ['C12/'], 'engines': ['spaces'], 'level': 'model_checking'},
+    'C13': {'prefixes': ['C13/'], 'engines': ['spaces'], 'level': 'model_checking'},
+    'C14': {'prefixes': ['C14/'], 'engines': ['spaces'], 'level': 'other'},
     'C15': {'prefixes': ['C15/'], 'engines': TREE + REAL, 'level': 'model_checking'},
     'C16': {'prefixes': ['C16/'], 'engines': TREE + REAL, 'level': 'model_checking'},
     'C17': {'prefixes': ['C17/'], 'engines': ['lat:rrtstar'] + REAL, 'level': 'model_checking'},
@@ -436,6 +492,8 @@ def run_engine(name, tier, seed):
         r = lattice_engine(arg, tier, seed, api=True)
     elif kind == 'real':
         r = real_engine(tier, seed)
+    elif kind == 'spaces':
+        r = spaces_engine(tier, seed)
     else:
         raise ToolError('unknown engine ' + name)
     r['wall_s'] = round(time.time() - t0, 1)
@@ -541,6 +599,8 @@ def write_evidence(pid, tier, seed, spec, results, counts, nviol, wall, known_hi
         'engines': [{'engine': r['engine'], 'configs': r.get('configs', []), 'witnesses': r.get('witnesses', []),
                      'wall_s': r.get('wall_s'), 'cached_result_for_same_tree': r.get('engine_cached', False)} for r in results],
         'labels_of_this_property_raised': counts,
+        'explanation': 'see rule; for C14 this is sampler refinement (word -> cell bijection, ball accept/reject decisions, word consumption, '
+                       'cone rejection) against the specification of the sampler in Spaces.tla, NOT a goodness-of-fit test',
         'known_findings_matched': [json.loads(k) for k in known_hit],
     }
     ev = {
